@@ -467,6 +467,16 @@ func drivePacket(b []byte, r *gen.Rand) {
 		}
 	})
 	ro("psi.FilterPMTPacketsToPids", func(p *packet.Packet) { psi.FilterPMTPacketsToPids([]*packet.Packet{p}, []int{0x101, 5}) })
+	ro("psi.FilterPMTPacketsToPids(first listed PID)", func(p *packet.Packet) {
+		// keep only the first stream the packet lists (if it decodes): the output then differs from the input
+		pids := []int{0x101}
+		if pay, err := packet.Payload(p); err == nil {
+			if m, err := psi.NewPMT(pay); err == nil && m != nil && len(m.Pids()) > 0 {
+				pids = []int{m.Pids()[0]}
+			}
+		}
+		psi.FilterPMTPacketsToPids([]*packet.Packet{p}, pids)
+	})
 	data := r.Bytes(r.Intn(200))
 	rw("(*Packet).SetPayload", func(p *packet.Packet) { p.SetPayload(data) })
 	v := r.Intn(4)
@@ -725,8 +735,104 @@ func run(c *mon.Ctx) {
 					f.drive(m, r)
 				}
 			}
+			// 16-bit length fields: every byte pair set to values at and just below the 16-bit maximum
+			curMut = "every-pair-near-ffff"
+			for pos := 0; pos+1 < lim; pos++ {
+				for _, v := range []uint16{0xffff, 0xfffe, 0xfffd, 0xfffc, 0xfffb, 0xfffa, 0x0fff, 0x0ffe, 0x8000} {
+					m := append([]byte{}, seed...)
+					m[pos], m[pos+1] = m[pos]&0xf0|byte(v>>8), byte(v)
+					if v >= 0xfff0 {
+						m[pos] = 0xff
+					}
+					f.drive(m, r)
+				}
+			}
 		})
 	}
+	// ---- adaptation fields whose optional fields end exactly at / just before / just past byte 188
+	c.Exhaustive("adaptation-field flags byte (256) x transport_private_data_length (256) x 4 extension length choices", 256*256*4)
+	c.StreamSeedless("af-boundaries", 256, func(flags int, r *gen.Rand) {
+		curMut = "af-length-boundary"
+		for tl := 0; tl < 256; tl++ {
+			if c.Tier == "quick" && flags&0x03 == 0 && tl%16 != 0 {
+				continue // without private data / extension the length byte is not a length
+			}
+			for ev := 0; ev < 4; ev++ {
+				var p [188]byte
+				r.Fill(p[:])
+				p[0], p[3], p[4], p[5] = 0x47, 0x30|byte(r.Intn(16)), byte(r.PickInt([]int{183, 183, 100, 1, 0, 255})), byte(flags)
+				if r.Chance(3) {
+					p[3] = 0x20 | byte(r.Intn(16))
+				}
+				off := 6
+				if flags&0x10 != 0 {
+					off += 6
+				}
+				if flags&0x08 != 0 {
+					off += 6
+				}
+				if flags&0x04 != 0 {
+					off++
+				}
+				if flags&0x02 != 0 {
+					p[off] = byte(tl)
+					off += 1 + tl
+				}
+				if flags&0x01 != 0 && off < 188 {
+					room := 188 - off - 1
+					p[off] = byte([]int{0, room, room + 1, 255}[ev] & 0xff)
+				}
+				b := p[:]
+				var pk packet.Packet
+				copy(pk[:], b)
+				ro := func(name string, f func(q *packet.Packet)) {
+					q := pk
+					call(name, q[:], true, func() { f(&q) })
+				}
+				ro("(*AdaptationField).getters", func(q *packet.Packet) {
+					if af, err := q.AdaptationField(); err == nil {
+						af.TransportPrivateData()
+						af.AdaptationFieldExtension()
+						af.PCR()
+						af.OPCR()
+						af.SpliceCountdown()
+					}
+				})
+				ro("adaptationfield.EncoderBoundaryPoint", func(q *packet.Packet) { adaptationfield.EncoderBoundaryPoint(q) })
+				ro("packet.Header+Payload", func(q *packet.Packet) { packet.Header(q); packet.Payload(q); q.Payload() })
+				k := (tl + ev) % 7
+				q := pk
+				call("(*AdaptationField).setter", q[:], false, func() {
+					af, err := q.AdaptationField()
+					if err != nil {
+						return
+					}
+					switch k {
+					case 0:
+						af.SetHasPCR(flags&0x10 == 0)
+					case 1:
+						af.SetHasTransportPrivateData(flags&0x02 == 0)
+					case 2:
+						af.SetHasAdaptationFieldExtension(flags&0x01 == 0)
+					case 3:
+						af.SetTransportPrivateData([]byte{1, 2, 3})
+					case 4:
+						af.SetAdaptationFieldExtension([]byte{1})
+					case 5:
+						af.SetHasSplicingPoint(flags&0x04 == 0)
+					default:
+						af.SetHasOPCR(flags&0x08 == 0)
+					}
+				})
+				q2 := pk
+				call("(*Packet).SetPayload", q2[:], false, func() { q2.SetPayload(b[100 : 100+(tl%80)]) })
+				q3 := pk
+				call("(*Packet).SetAdaptationFieldControl", q3[:], false, func() { q3.SetAdaptationFieldControl(packet.PayloadAndAdaptationFieldFlag) })
+				good := packet.Packet(ref.PayloadPacket(0x100, 0, false, b[:100]))
+				call("(*Packet).SetAdaptationField(hostile source)", pk[:], true, func() { good.SetAdaptationField((*packet.AdaptationField)(&pk)) })
+			}
+		}
+	})
 	// ---- PMT descriptors: every tag with short / random bodies
 	c.Stream("descriptors", 256, func(tag int, r *gen.Rand) {
 		curMut = "descriptor-body"
